@@ -1073,6 +1073,22 @@ theorem C08_fnless_chain (ignore : Bool) (ops : List Op) (hops : ∀ op ∈ ops,
       = observe (Ref.fnlessChain ignore ops src) := by
   rw [C08_refines_partial ignore ops hops src hc, chainEvents_fnless ignore ops hf]
 
+/-- **C08_fnless_chain_any_source.**  The same over ANY source and with NO `CleanRun` condition (through
+`C08_refines_assign_aligned_partial`, i.e. the repaired `processed_with_inputs`): for every chain of un-batched
+operators without functions in which `SELF` is never the first of several output keys, every finite stream of source
+outcomes — failing reads at any position, of any kind — and both skipping modes, what the caller of the real runner
+observes is `Ref.fnlessChainS`: every operator leaves out the skippable errors passed on to it and routes the values
+of every remaining record unchanged.  The hypotheses are properties of the KEY LISTS only; nothing is assumed of the
+values. -/
+theorem C08_fnless_chain_any_source (ignore : Bool) (ops : List Op)
+    (hf : ∀ op ∈ ops, op.Fnless ∧ (op.kind = .select ∨ op.kind = .apply ∨ op.kind = .assign))
+    (hb : ∀ op ∈ ops, (op.fnBatch = 0 ∧ op.batch = 0) ∧ SelfAlone op) (src : List (Ev Val)) :
+    ((Impl.run ignore ops src).out, (Impl.run ignore ops src).err)
+      = observe (Ref.fnlessChainS ignore ops src) := by
+  have hok : ∀ op ∈ ops, OpOK op := fun op hm => opOK_fnless op (hb op hm).1 (hb op hm).2 (hf op hm).2
+  rw [C08_refines_assign_aligned_partial ignore ops src (runOKA_of_opOK ignore ops hok src),
+    chainEventsS_fnless ignore ops hf]
+
 /-- **C08_fnless_batched.**  With batch sizes an operator without a function (first output key not `SELF`) only
 REGROUPS: the "calls" hand every group of columns on as it is (`callGroups` is the identity on the groups), so the
 output columns are the selected input columns regrouped to `fn_batch_size` and then to `batch_size` rows —
